@@ -229,6 +229,10 @@ def weight_power_scale(vis, weights, auto_indices, index1, index2, out=None, div
         for j in range(vis.shape[1]):
             for k in range(len(auto_indices)):
                 autocorr = vis[i, j, auto_indices[k]].real
+                # A non-finite autocorrelation is as bad as a zero one, but its reciprocal
+                # is a perfectly finite zero that would slip through the test below
+                if not np.isfinite(autocorr):
+                    autocorr = np.nan
                 auto_scale[k] = np.reciprocal(autocorr) if divide else autocorr
             for k in range(vis.shape[2]):
                 p = auto_scale[index1[k]] * auto_scale[index2[k]]
